@@ -165,7 +165,9 @@ func (pt *propTest) checkCase(t vfkit.Fataler, c *hcCase, record bool) {
 		}
 		// keep the smallest failing case seen for this signature; minimise the
 		// first one by removing operations (on top of rapid's own shrinking)
-		if pt.best == nil || pt.bestSig != v.Signature {
+		if v.Signature == "deadlock" {
+			pt.best, pt.bestSig = c, v.Signature // every re-execution would wait for the watchdog
+		} else if pt.best == nil || pt.bestSig != v.Signature {
 			pt.best, pt.bestSig = pt.minimize(c, v), v.Signature
 		} else if len(c.Ops) < len(pt.best.Ops) {
 			pt.best = c
